@@ -42,7 +42,7 @@ def run(tier, res, replay=None):
     design(res)
     items = []
     for base in (guard.base_single, guard.base_rich, guard.base_core,
-                 guard.base_adiabatic):
+                 guard.base_adiabatic, guard.base_lowfirst):
         items += [(base.__name__[5:] + '/' + x[0],) + x[1:]
                   for x in guard.targeted(rng, base, tier)]
     items += [('rich/' + x[0],) + x[1:]
@@ -53,7 +53,8 @@ def run(tier, res, replay=None):
         items += [('core/' + x[0],) + x[1:]
                   for x in guard.generic(rng, guard.base_core, tier)]
     # valid bases themselves
-    for base in (guard.base_single, guard.base_rich, guard.base_core):
+    for base in (guard.base_single, guard.base_rich, guard.base_core,
+                 guard.base_lowfirst):
         for k in range(2):
             c, tn = base(random.Random(rng.randrange(1 << 30)))
             items.append((f'{base.__name__[5:]}/valid#{k}', c, tn, [], {},
